@@ -84,6 +84,61 @@ Theorem C17_self_example_extracted : forall d ef efs esf v vs,
 Proof. exact self_example_extracted. Qed.
 Print Assumptions C17_self_example_extracted.
 
+(* the WHOLE node of extract_top_level (parameter object / media type object /
+   OpenAPI 2.0 body parameter object, followed by the expanded subschemas of its
+   schema): every declared single example of the node is extracted - every
+   keyword of the list (example; x-example for OpenAPI 2.0) present on the node
+   itself ... *)
+Theorem C17_node_keyword_extracted : forall efs esf node unresolved ef v vs,
+  In ef efs -> obj_get ef node = Some v ->
+  node_values_res efs esf node unresolved = Ok vs -> In v vs.
+Proof. exact node_keyword_extracted. Qed.
+Print Assumptions C17_node_keyword_extracted.
+
+(* ... and on every expanded subschema of its schema *)
+Theorem C17_node_schema_keyword_extracted : forall efs esf node unresolved sch subs s ef v vs,
+  obj_get s_schema node = Some sch -> expand_res sch = Ok subs -> In s subs ->
+  In ef efs -> obj_get ef s = Some v ->
+  node_values_res efs esf node unresolved = Ok vs -> In v vs.
+Proof. exact node_schema_keyword_extracted. Qed.
+Print Assumptions C17_node_schema_keyword_extracted.
+
+(* OpenAPI 2.0 nodes that carry BOTH keywords: both values are extracted, for the
+   node itself and for its schema *)
+Theorem C17_both_keywords_extracted : forall esf node unresolved v w vs,
+  obj_get s_example node = Some v -> obj_get s_x_example node = Some w ->
+  node_values_res [s_example; s_x_example] esf node unresolved = Ok vs -> In v vs /\ In w vs.
+Proof. exact both_keywords_extracted. Qed.
+Print Assumptions C17_both_keywords_extracted.
+
+Theorem C17_both_keywords_of_schema_extracted : forall esf node unresolved d v w vs,
+  obj_get s_schema node = Some (JObj d) ->
+  assoc_get s_example d = Some v -> assoc_get s_x_example d = Some w ->
+  node_values_res [s_example; s_x_example] esf node unresolved = Ok vs -> In v vs /\ In w vs.
+Proof. exact both_keywords_of_schema_extracted. Qed.
+Print Assumptions C17_both_keywords_of_schema_extracted.
+
+(* the first-keyword-only rule (x-example has precedence; a sentinel, not the
+   code) loses the plain example of a 2.0 query parameter and of a 2.0 body
+   parameter, its schema and a branch of it; the rule of the code gives all *)
+Theorem C17_first_keyword_only_refuted : exists q b,
+  obj_get s_example q = Some (JStr [101]%N) /\ obj_get s_x_example q = Some (JStr [120]%N) /\
+  node_values [s_example; s_x_example] s_x_examples q q = XOk [JStr [101]%N; JStr [120]%N] /\
+  node_values_first_only [s_x_example; s_example] s_x_examples q q = XOk [JStr [120]%N] /\
+  node_values [s_example; s_x_example] s_x_examples b b = XOk [JInt 2; JInt 1; JInt 4; JInt 3; JInt 5; JInt 6] /\
+  node_values_first_only [s_x_example; s_example] s_x_examples b b = XOk [JInt 1; JInt 3; JInt 6].
+Proof. exists node_both_query, node_both_body. exact first_keyword_only_refuted. Qed.
+Print Assumptions C17_first_keyword_only_refuted.
+
+(* the hypotheses of the two both-keywords theorems hold on a witness *)
+Theorem C17_both_keywords_hypotheses_satisfiable : exists node,
+  obj_get s_example node = Some (JInt 2) /\ obj_get s_x_example node = Some (JInt 1) /\
+  (exists d, obj_get s_schema node = Some (JObj d) /\
+             assoc_get s_example d = Some (JInt 4) /\ assoc_get s_x_example d = Some (JInt 3)) /\
+  exists vs, node_values_res [s_example; s_x_example] s_x_examples node node = Ok vs.
+Proof. exists node_both_body. exact both_keywords_demo. Qed.
+Print Assumptions C17_both_keywords_hypotheses_satisfiable.
+
 (* ... but not on a later allOf member of an OpenAPI 2.0 schema (fields example /
    x-example / x-examples): the same schema read with the 3.0 fields gives both *)
 Theorem C17_allof_examples_20_refuted : exists schema first second,
